@@ -72,6 +72,9 @@ class Loop:
     ghost_end: list = field(default_factory=list)   # ghost statements executed at the end of each iteration
     lemmas: list = field(default_factory=list)      # lemma applications offered to inv-pres / exit
     assume: list = field(default_factory=list)      # clauses *assumed* at the loop head (listed as assumptions)
+    iter: list = field(default_factory=list)        # two-state iteration contract: at_iter(e) = value at iteration start
+    exit: list = field(default_factory=list)        # clauses that must hold when the loop condition turns false
+    range_is: Optional[tuple] = None                # (lo, hi) expressions the evaluated range() bounds must equal
 
 
 @dataclass
@@ -188,6 +191,8 @@ class Contract:
         self.must_fail = [_cl(c, dp) for c in self.must_fail]
         for lp in self.loops.values():
             lp.inv = [_cl(c, dp) for c in lp.inv]
+            lp.iter = [_cl(c, dp) for c in lp.iter]
+            lp.exit = [_cl(c, dp) for c in lp.exit]
         for k in list(self.asserts):
             self.asserts[k] = [_cl(c, dp) for c in self.asserts[k]]
         for k in list(self.branch_iff):
